@@ -6,6 +6,7 @@ import (
 	"time"
 
 	"github.com/failsafe-go/failsafe-go"
+	"github.com/failsafe-go/failsafe-go/internal/verifhook"
 	"github.com/failsafe-go/failsafe-go/policy"
 )
 
@@ -128,6 +129,7 @@ func (b *bulkhead[R]) AcquirePermitWithMaxWait(ctx context.Context, maxWaitTime 
 	}
 
 	// Second attempt with timer
+	verifhook.Yield("bulkhead.betweenAcquires")
 	timer := time.NewTimer(maxWaitTime)
 	defer timer.Stop()
 	select {
